@@ -38,7 +38,7 @@ def load(pid):
 
 def match(pid, fkey):
     """Return the id of the known finding that lists this failure key, or None."""
-    if fkey is None:
+    if not isinstance(fkey, str):
         return None
     for e in load(pid):
         if fkey in e["_keys"]:
